@@ -132,8 +132,6 @@ def gen_case(rng, quick=True, part=None):
         o['max_S_err'] = 1e-8
     else:
         o['mixer'] = rng.choice([None, False, True, 'SubspaceExpansion', 'DensityMatrixMixer'])
-        if o['mixer'] == 'SubspaceExpansion' and engine == 'TwoSiteDMRGEngine':
-            o['mixer'] = 'DensityMatrixMixer'       # SubspaceExpansion has no two-site decomposition
         if o['mixer']:
             o['mixer_params'] = {'amplitude': rng.choice([1e-3, 1e-5]), 'decay': rng.choice([2.0, 1.5]),
                                  'disable_after': rng.choice([1, 2, 3, 15])}
@@ -187,10 +185,15 @@ def traced_engine(cls, rec, check_fresh):
     class Traced(cls):
         def sweep(self, optimize=True, **kw):
             rec['sweeps'].append({'optimize': bool(optimize), 'start': snapshot(self.env), 'steps': []})
+            if optimize:  # amplitude with which the mixer perturbs the state during this sweep (0: no mixer);
+                # filled in per step below, because `sweep` itself may re-activate the mixer (`chi_list`)
+                rec['mixer_amp_last_sweep'] = 0.0
             return super().sweep(optimize, **kw)
 
         def make_eff_H(self):
             super().make_eff_H()
+            if self.mixer is not None and rec['sweeps'] and rec['sweeps'][-1]['optimize']:
+                rec['mixer_amp_last_sweep'] = max(rec.get('mixer_amp_last_sweep', 0.0), float(self.mixer.amplitude))
             H = self.eff_H
             while hasattr(H, 'orig_operator'):
                 H = H.orig_operator
@@ -317,6 +320,7 @@ def run_case(case):
     out['last_trunc_err'] = float(st['max_trunc_err'][-1]) if st['max_trunc_err'] else 0.0
     out['mixer_on_at_end'] = eng.mixer is not None
     out['mixer_amp'] = float(eng.mixer.amplitude) if eng.mixer is not None else 0.0
+    out['mixer_amp_last_sweep'] = rec.get('mixer_amp_last_sweep', 0.0)
     out['sweeps_done'] = int(eng.sweeps)
     out['stale'] = rec.get('stale', 0.0)
     out['stale_at'] = rec.get('stale_at')
